@@ -115,6 +115,36 @@ func (c12) Build(tier string, seed uint64) []any {
 		c.W, c.H = 1+r.Intn(64), 1+r.Intn(64)
 		cs = append(cs, c)
 	}
+	// (hist) every precision 1..16, each encode made right after an unrelated irreversible encode
+	// whose (quality, levels, precision) is a neighbour of its own (same quality mostly, one level
+	// more or fewer, precision shifted by 1, 4, 8 or 10): tables derived from those three values
+	// must not carry over from one Encoder to the next
+	nHist := 500
+	if th {
+		nHist = 8000
+	}
+	for i := 0; i < nHist; i++ {
+		r := gen.Sub(seed, "C12", "hist", i)
+		c := mk("hist", r)
+		c.P = 1 + r.Intn(16)
+		if c.P == 1 {
+			c.Signed = false
+		}
+		c.W, c.H = 8+r.Intn(40), 8+r.Intn(40)
+		c.PreP = c.P + gen.Pick(r, 10, -10, 10, -10, 8, -8, 4, -4, 1, -1)
+		if c.PreP < 1 || c.PreP > 16 {
+			c.PreP = 1 + r.Intn(16)
+		}
+		c.PreLevels = c.Levels + gen.Pick(r, -1, -1, 0, 1)
+		if c.PreLevels < 0 || c.PreLevels > 6 {
+			c.PreLevels = c.Levels
+		}
+		c.PreQuality = c.Quality
+		if r.Chance(1, 4) {
+			c.PreQuality = 1 + r.Intn(100)
+		}
+		cs = append(cs, c)
+	}
 	nMid, nBig := 600, 30
 	if th {
 		nMid, nBig = 12000, 500
@@ -144,6 +174,15 @@ func (c12) Exec(d any) mon.Result {
 	res.Cell("gen=" + c.Gen)
 	px := c.pixels()
 	keep := append([]byte(nil), px...)
+	if c.PreP > 0 {
+		// the unrelated encode right before the judged one (its result is not judged)
+		pre := j2kCase{W: 8, H: 8, C: 1, P: c.PreP, Levels: c.PreLevels, CBW: 16, CBH: 16, Layers: 1, Quality: c.PreQuality, Class: "noise", CSeed: c.CSeed ^ 0x51}
+		func() {
+			defer func() { _ = recover() }()
+			_, _ = jpeg2000.NewEncoder(pre.params(false)).Encode(pre.pixels())
+		}()
+		res.AddFeat("preceded_by_unrelated_encode", 1)
+	}
 	cs, err := jpeg2000.NewEncoder(c.params(false)).Encode(px)
 	if err != nil {
 		return mon.Violation("encode-error", err.Error())
